@@ -111,6 +111,13 @@ def _tc_worker(model, time_points, y0, integrator):
     return _time_course_worker(model, time_points, y0=y0, integrator=integrator)
 
 
+def _ss_worker(model, *, rel_norm, integrator, y0):
+    from mxlpy.scan import _steady_state_worker
+
+    _mark(tuple(sorted(model.get_parameter_values().items())))
+    return _steady_state_worker(model, rel_norm=rel_norm, integrator=integrator, y0=y0)
+
+
 def values_for(keys, variant=0):
     return [0.5 + i + 10.0 * variant for i, _k in enumerate(keys)]
 
@@ -127,7 +134,15 @@ def _json_save(file, data):
     Path(file).write_text(json.dumps(data))
 
 
-def run_cached(kind, keys, cache_dir, *, parallel=False, max_workers=2, variant=0, raw=None, flavor="pickle"):
+def _values(keys, variant, full_keys):
+    """The value that belongs to a key is fixed by its position in the FULL key list, whatever selection is run."""
+    if full_keys is None:
+        return values_for(keys, variant)
+    allv = dict(zip([repr(k) for k in full_keys], values_for(full_keys, variant), strict=True))
+    return [allv[repr(k)] for k in keys]
+
+
+def run_cached(kind, keys, cache_dir, *, parallel=False, max_workers=2, variant=0, raw=None, flavor="pickle", full_keys=None):
     """One run of the real caching entry point. Returns {repr(key): comparable result}.
 
     variant: which computation is cached (0/1: another function / another model under the same keys);
@@ -143,7 +158,7 @@ def run_cached(kind, keys, cache_dir, *, parallel=False, max_workers=2, variant=
         cache = Cache(tmp_dir=Path(cache_dir), name_fn=_json_name, load_fn=_json_load, save_fn=_json_save)
     if kind in ("dict", "frame"):
         fn = _fn_dict if kind == "dict" else _fn_frame
-        res = parallelise(fn, list(zip(keys, values_for(keys, variant), strict=True)), cache=cache, parallel=parallel, max_workers=max_workers)
+        res = parallelise(fn, list(zip(keys, _values(keys, variant, full_keys), strict=True)), cache=cache, parallel=parallel, max_workers=max_workers)
         if [k for k, _v in res] != list(keys):
             raise AssertionError(f"keys out of order: {[k for k, _ in res]}")
         if raw is not None:
@@ -153,9 +168,18 @@ def run_cached(kind, keys, cache_dir, *, parallel=False, max_workers=2, variant=
         return {repr(k): v.to_dict() for k, v in res}
     # scan.time_course over a parameter column: keys are the row labels of the scan table
     if isinstance(keys[0], tuple):
-        to_scan = pd.DataFrame({"k": values_for(keys, variant)}, index=pd.MultiIndex.from_tuples(keys))
+        to_scan = pd.DataFrame({"k": _values(keys, variant, full_keys)}, index=pd.MultiIndex.from_tuples(keys))
     else:
-        to_scan = pd.DataFrame({"k": values_for(keys, variant)}, index=list(keys))
+        to_scan = pd.DataFrame({"k": _values(keys, variant, full_keys)}, index=list(keys))
+    if kind == "steady":
+        # scan.steady_state: results are a list aligned with the rows of the scan table
+        sc = scan.steady_state(_model(), to_scan=to_scan, parallel=parallel, cache=cache, worker=_ss_worker)
+        out = {}
+        for pos, k in enumerate(keys):
+            out[repr(k)] = sc.raw_results[pos].variables.round(9).to_dict()
+            if raw is not None:
+                raw[repr(k)] = sc.raw_results[pos]
+        return out
     sc = scan.time_course(_model(), to_scan=to_scan, time_points=np.array([0.0, 0.5, 1.0]), parallel=parallel, cache=cache, worker=_tc_worker)
     out = {}
     for k in keys:
@@ -222,6 +246,8 @@ def check(case):
 # has one and computes + stores the others. (Keys identify results: a run of another computation under the same
 # keys is served from the map - that is the documented contract, and the reference does the same.)
 HIST_OPS = ["runA", "runB", "runA-subset", "wipe", "drop-first", "edit-returned"]
+# a second, smaller alphabet: other selections / orders of the same keys (a refined, filtered or re-sorted table)
+HIST_OPS2 = ["runA", "runA-tail", "runA-reversed", "runB", "wipe"]
 
 
 def check_history(case):
@@ -261,7 +287,7 @@ def check_history(case):
                         obj.raw_args.clear() if isinstance(getattr(obj, "raw_args", None), list) else None
             else:
                 variant = 1 if op == "runB" else 0
-                ks = keys[:-1] if op.endswith("subset") else keys
+                ks = keys[:-1] if op.endswith("subset") else keys[1:] if op.endswith("tail") else keys[::-1] if op.endswith("reversed") else keys
                 expect = {}
                 misses = 0
                 for k in ks:
@@ -272,7 +298,7 @@ def check_history(case):
                 before = count_calls(calls_dir)
                 last_raw = {}
                 try:
-                    got = run_cached(kind, ks, cache_dir, variant=variant, raw=last_raw, flavor=flavor)
+                    got = run_cached(kind, ks, cache_dir, variant=variant, raw=last_raw, flavor=flavor, full_keys=keys)
                 except Exception as exc:  # noqa: BLE001
                     return outcome(False, "run-raised", symptom=f"history-run-raised:{type(exc).__name__}", nontrivial=True,
                                    detail=f"step {step} ({op}) raised {type(exc).__name__}: {str(exc)[:150]} | {txt}")
@@ -507,6 +533,13 @@ def generate(tier):
                 continue
             for pre in it.product(HIST_OPS, repeat=n - 1):
                 for last in runs:
+                    cases.append({"mode": "history", "kind": kind, "keys": KEYSETS[ks], "hist": [*pre, last]})
+    for kind, ks in (("dict", "ints"), ("frame", "strs"), ("simulation", "ints"), ("steady", "ints"), ("steady", "strs")):
+        for n in range(1, 4):
+            for pre in it.product(HIST_OPS2, repeat=n - 1):
+                for last in [o for o in HIST_OPS2 if o.startswith("run")]:
+                    if kind != "steady" and not any(o in ("runA-tail", "runA-reversed") for o in (*pre, last)):
+                        continue  # already in the first alphabet
                     cases.append({"mode": "history", "kind": kind, "keys": KEYSETS[ks], "hist": [*pre, last]})
     # the same histories with a user-supplied naming / storage scheme (JSON files named after repr(key)), on the key
     # set whose str() values coincide: with these functions the keys are distinct files
